@@ -16,7 +16,7 @@ from units_common import e_str
 
 TRUSTED_BASE = [
     'Coq 8.16.1 kernel + vm_compute (finite obligations over the regenerated table)',
-    'tools/gen_tables.py + /repo/core/src/verif_hooks/units.rs (resolved records: base-unit map and scale of every name, as computed by the tree\'s own to_hashmap_and_scale)',
+    'tools/gen_tables.py + ' + vlib.REPO + '/core/src/verif_hooks/units.rs (resolved records: base-unit map and scale of every name, as computed by the tree\'s own to_hashmap_and_scale)',
     'coq/Units/Standards.v: 286 defining factors in SI base units, written by hand from BIPM SI brochure / NIST SP 811 exact factors / IAU 2012 B2 / IEC 80000-13',
     'hand-written model coq/Units/Algebra.v tied to core/src/num/unit.rs by the differential run only; Exact<Real> arithmetic modelled over Q with Simple/Pi patterns, pi treated as a formal symbol in the theorems',
     'python Fraction arithmetic in gen/c04.py (the spec side of the differential run); parsing of fend\'s printed fractions',
@@ -35,7 +35,7 @@ From FendV Require Import Base.Prelude Units.Defs Units.Algebra Units.Lookup Uni
 From FendV Require Import Units.Generated.UnitTable.
 Definition mark (n : N) := n.
 Eval vm_compute in (mark 1, filter (fun n => negb (chk_scale_nonzero n)) all_names).
-Eval vm_compute in (mark 2, map (fun e => fst (fst e)) (filter (fun e => negb (chk_standard e || mem_str (fst (fst e)) known_standards)) standards)).
+Eval vm_compute in (mark 2, map (fun e => fst (fst e)) (filter (fun e => negb (chk_standard e)) standards)).
 '''
 DIAG_NAMES = {1: 'C04_scales_nonzero', 2: 'C04_standards'}
 
@@ -175,6 +175,7 @@ def universe(c, t):
 def check(c):
     try:
         _check(c)
+        U.regression_witnesses(c)
     finally:
         c.repr_drift += U.DRIFT['pi_approximation_flagged_exact']
         if U.DRIFT['pi_approximation_flagged_exact']:
@@ -284,10 +285,8 @@ def _check(c):
         if bad and nbad < 25:
             nbad += 1
             c.violation('conversion-' + bad['law'], bad)
-    tb = lambda u: {k for k in u.dims if k in ('celsius', 'fahrenheit', 'kelvin')}
-    lo = [(A, B, ratio) for A, B, ratio in leftover if not (tb(A) | tb(B)) or tb(A) == tb(B)]
+    lo = leftover          # (temperature mixes were skipped before fend commit 1210896)
     c.dist['quotient-units-kept'] = len(leftover)
-    c.dist['quotient-units-kept-temperature-mix-skipped'] = len(leftover) - len(lo)
     q3b = l2(c, ['@noapprox (((1 %s)/(1 %s)) to unitless) to fraction' % (A.name, B.name) for A, B, ratio in lo])
     for (A, B, ratio), o in zip(lo, q3b):
         pn = parse_num(o[1]) if o[0] == 'o' else None
